@@ -23,7 +23,8 @@ def header_line(rng, name, value):
     if rng.random() < 0.3:
         n = pad(rng, n)
     sep = rng.choice([b': ', b':', b':  ', b' : '])
-    v = value + rng.choice(PADS)
+    # a value may end in a bare CR (trimmed as white space): the line then ends CR CR LF
+    v = value + rng.choice(PADS + [b'\r', b' \r'])
     return n + sep + v
 
 
@@ -129,7 +130,10 @@ def gen_bad_request(rng, limit=51200, kind=None):
     elif kind == 'nonutf8-uri':
         u = rng.choice([b'/\xff', b'\xc3', b'/\xed\xa0\x80', b'/\xf4\x90\x80\x80', b'/\xc0\xaf'])
     elif kind == 'bad-version':
-        v = rng.choice([b'HTTP/1.2', b'HTTP/2', b'http/1.1', b'HTTP/1.1 ', b'', b'HTTP/1.10'])
+        v = rng.choice([b'HTTP/1.2', b'HTTP/2', b'http/1.1', b'HTTP/1.1 ', b'', b'HTTP/1.10', b'HTTP/1.', b'HTTP/1.1\r', b'HTTP/1.1 extra',
+                        b'HTTP/1.01', b'HTTP/1', b'HTTP/1.1x'])
+        if rng.random() < 0.5:
+            u = rng.choice([b'/', b'*', b'/a', b'a'])      # short request lines (the one-shot parser has a minimum length)
     elif kind == 'stray-cr':
         p = rng.randint(0, 2)
         if p == 0:
